@@ -234,7 +234,7 @@ func (b *BasicService) StopAsync() {
 		return
 	}
 
-	terminated, _ := b.switchState(New, Terminated, func() {
+	terminated, state := b.switchState(New, Terminated, func() {
 		// Service wasn't started yet, and it won't be now.
 		// Notify waiters and listeners.
 		close(b.runningWaitersCh)
@@ -242,9 +242,11 @@ func (b *BasicService) StopAsync() {
 		b.notifyListeners(func(l Listener) { l.Terminated(New) }, true)
 	})
 
-	if !terminated {
+	if !terminated && state != Terminated {
 		// Service is Starting or Running. Just cancel the context (it must exist,
-		// as it is created when switching from New to Starting state)
+		// as it is created when switching from New to Starting state).
+		// A Terminated service may never have been started (a concurrent StopAsync
+		// switched it from New to Terminated): there is no context to cancel then.
 		b.serviceCancel()
 	}
 }
